@@ -240,7 +240,7 @@ fn stop(mut s: Srv) -> bool {
 }
 
 /// One client of a C12 history.  kinds: g gate+200, e gate+500, p gate+panic, d gate+drop, m malformed, a abort mid-head,
-/// u abort mid-upload, k keep-alive then close, r two requests on one connection.
+/// u abort mid-upload, v half-close in the middle of an upload the handler ignores, k keep-alive then close, r two requests on one connection.
 /// Upper-case E, P, D, M: as the lower-case kind, but the client keeps its socket open after the server has answered
 /// and closed its side (the slot must come back without the client's help).
 fn client(addr: SocketAddr, kind: char, id: usize, delay_ms: u64) -> (String, Option<TcpStream>) {
@@ -273,6 +273,16 @@ fn client_run(c: &mut TcpStream, kind: char, id: usize) -> String {
             let _ = c.write_all(b"POST /up HTTP/1.1\r\ncontent-length: 1000\r\n\r\n0123456789");
             std::thread::sleep(Duration::from_millis(20));
             "-".to_string()
+        }
+        'v' => {
+            // an upload larger than the in-memory threshold that the handler answers without reading; the client
+            // half-closes in the middle of the body, reads the answer and goes away
+            let _ = c.write_all(b"POST /up HTTP/1.1\r\ncontent-length: 200000\r\n\r\n");
+            let _ = c.write_all(&vec![b'u'; 3000]);
+            let _ = c.shutdown(std::net::Shutdown::Write);
+            let r = read_response(&mut c);
+            std::thread::sleep(Duration::from_millis(20));
+            r.split('/').next().unwrap().to_string()
         }
         'k' => {
             let _ = c.write_all(b"GET /ok HTTP/1.1\r\n\r\n");
@@ -528,7 +538,7 @@ pub fn run_tokens(ctx: &mut Ctx) {
 pub fn run_limit(ctx: &mut Ctx) {
     let mut rng = Rng::new(ctx.seed.wrapping_add(12));
     let count = if ctx.thorough() { 160 } else { 24 };
-    let all = ['g', 'e', 'p', 'd', 'm', 'a', 'u', 'k', 'r', 'E', 'P', 'D', 'M'];
+    let all = ['g', 'e', 'p', 'd', 'm', 'a', 'u', 'v', 'k', 'r', 'E', 'P', 'D', 'M'];
     for idx in 0..count {
         let n = 1 + (idx as usize % 4);
         let clients = rng.range(2 * n as u64, 3 * n as u64) as usize;
